@@ -206,6 +206,21 @@ def r_health(prog, R):
             r.viol(key, cf.name, cf.loc(c["ln"]), "query re-sent after a failure on a path that did not demote the failing server first", trail=trail_lines(cf, t))
         else:
             r.ok(key, cf.loc(c["ln"]))
+    # a connection-level failure (read / write / connect error, any transport) is a failure of that server: handle_conn_error is told so unless the reason is local (status SUCCESS: out of memory)
+    nh = 0
+    for cf, b, i, c in prog.callers_of("handle_conn_error"):
+        st = name_of_const(call_arg(c, 2))
+        crit = name_of_const(call_arg(c, 1))
+        nh += 1
+        key = "conn-error@%s#%d demotes the server" % (cf.name, sorted(x[2]["id"] for x in cf.calls_to("handle_conn_error")).index(c["id"]))
+        if st == "ARES_SUCCESS":
+            r.ok(key + " (local reason, status SUCCESS)", cf.loc(c["ln"]), nontrivial=False)
+        elif crit == "ARES_TRUE":
+            r.ok(key, cf.loc(c["ln"]))
+        else:
+            r.viol(key, cf.name, cf.loc(c["ln"]), "handle_conn_error(.., %s, %s): a socket error reported for this server closes the connection and re-sends its requests without counting a failure "
+                   "for some connections -- the server keeps its place at the head of the list and the re-sent requests go straight back to it" % (render(call_arg(c, 1)), render(call_arg(c, 2))))
+    r.require(nh >= 5, "fewer handle_conn_error call sites than confirmed by hand (%d)" % nh)
     # server_increment_failures really increments and re-sorts
     inc = prog.func("server_increment_failures")
     if any(el["k"] == "asg" and is_field(el["e"]["l"], "consec_failures") and el["e"]["op"] in ("++", "+=") for _, _, el in inc.elements()):
